@@ -71,8 +71,9 @@ def zernike_nm(n, m, N, rot=0):
             m = abs(m)
             Z = numpy.sqrt(2*(n+1)) * zernikeRadialFunc(n, m, R) * numpy.sin((m*theta)+rot)
 
-    # clip
-    Z = Z*numpy.less_equal(R, 1.0)
+    # clip (by selection: outside the unit disc the radial polynomial of a very high
+    # order overflows, and inf * 0 is NaN)
+    Z = numpy.where(numpy.less_equal(R, 1.0), Z, 0.)
 
     return Z*circle(N/2., N)
 
